@@ -113,10 +113,9 @@ func fetch(
 			unmarshalFn := blk.UnmarshalFn(root)
 			err := unmarshal(unmarshalFn, bitswapBlk.RawData())
 			if err != nil {
-				// verification succeeded in the hasher but failed here. This does happen: once the
-				// original Block is populated, its UnmarshalFn accepts any further data for the CID
-				// without looking at it, so a peer can make the hasher pass garbage for a CID that a
-				// duplicate request still waits for. Fail the fetch instead of taking the node down.
+				// verification succeeded in the hasher but failed here, e.g. when the duplicate
+				// request was made with another header than the original one. Fail the fetch
+				// instead of taking the node down.
 				return fmt.Errorf("unmarshaling duplicate block: %w", err)
 			}
 			// NOTE: This approach has a downside that we redo deserialization and computationally
